@@ -25,6 +25,8 @@ class RefCloud:
         self.problems = []                    # verification failures (strings)
         self.clock_fn = clock_fn
         self.host = host
+        self.rotate_login_id = False          # issue a new loginId on every id/get call (validate against the latest)
+        self._lid_n = 0
         self._n = 0
 
     # --- helpers ---------------------------------------------------------------------------
@@ -124,6 +126,10 @@ class RefCloud:
 
     def answer(self, path, fields):
         if path == "/v1/user/login/id/get":
+            if self.rotate_login_id:
+                self._lid_n += 1
+                self.login_ids[fields["loginAccount"]] = hashlib.sha256(
+                    f"lid{self._lid_n}{fields['loginAccount']}".encode()).hexdigest()[:32]
             return self._ok({"loginId": self._login_id(fields["loginAccount"])})
         if path == "/v1/user/login":
             self._n += 1
